@@ -299,6 +299,53 @@ def run(ck):
                         "the range the client holds does not denote the analysed span in the current text" % f, {"files": w2}, json.dumps(got)[:600], json.dumps(want)[:600])
                 break
     ck.count("republish", len(rlines), {core.sig_hash(l) for l in rlines}, sample={"line": rlines[0][:300]} if rlines else None)
+    # edits of a document that is included back by a file it includes (mutual headers, a longer cycle, a self-include): while the
+    # includes are walked the edited document is read again; what the client holds afterwards must denote spans in the text it shows
+    clines, cmeta = [], []
+    tops = ["// one more line\n", "// \u65e5\u672c\n\n", "/* a\r\n b */\r\n"]
+    for ci, (disk, doc, edits) in enumerate([
+            ({"a.td": 'include "b.td"\nclass Foo : Bar;\ndef x : Foo, Missing;\n', "b.td": 'include "a.td"\nclass Bar;\n'}, "a.td", 1),
+            ({"a.td": 'include "b.td"\nclass Foo : Bar;\ndef x : Foo, Missing;\n', "b.td": 'include "a.td"\nclass Bar;\n'}, "a.td", 2),
+            ({"a.td": 'include "b.td"\nclass Foo : Bar;\n', "b.td": 'include "a.td"\nclass Bar;\ndef y : Bar, Missing;\n'}, "b.td", 1),
+            ({"a.td": 'include "b.td"\ndef x : Missing;\n', "b.td": 'include "c.td"\n', "c.td": 'include "a.td"\nclass C;\n'}, "a.td", 2),
+            ({"a.td": 'include "a.td"\ndef x : Missing;\n'}, "a.td", 1),
+            ({"a.td": 'include "b.td"\ndef x : Missing;\n', "b.td": 'class Bar;\n'}, "a.td", 2)]):
+        for ti, top in enumerate(tops):
+            text = disk[doc]
+            script = [["open", doc, text], ["idle"]]
+            for e in range(edits):
+                text = top + text
+                script += [["change", doc, text], ["idle"]]
+            d = "%s/tmp/c09c_%d_%d" % (core.BUILD, ci, ti)
+            clines.append("srv " + json.dumps({"dir": d, "disk": disk, "script": script, "timeout_ms": 10000, **({"caps": "full"} if (ci + ti) % 2 else {})}))
+            w2 = dict(disk)
+            w2[doc] = text
+            cmeta.append((w2, doc))
+    cres = core.impl(clines, timeout=300, jobs=8, tag="c09")
+    cides = core.impl(["ws " + json.dumps({"files": {"/w/" + k_: v for k_, v in w2.items()}, "root": "/w/" + doc, "queries": [["diagnostics"]]}) for w2, doc in cmeta], timeout=120, tag="ci09")
+    for (w2, doc), r, o in zip(cmeta, cres, cides):
+        try:
+            data = json.loads(r)
+            diags = json.loads(o)[0]
+        except Exception:
+            ck.fail(["C09", "cyclic-edit", "abort"], "session aborts: %s" % r[:80], {"files": w2, "document": doc}, r[:200], "answers")
+            continue
+        if data.get("timeout"):
+            ck.fail(["C09", "cyclic-edit", "timeout"], "session with an edit does not become idle", {"files": w2, "document": doc}, None, "idle")
+            continue
+        pubs = {}
+        for m in data["msgs"]:
+            if m.get("method") == "textDocument/publishDiagnostics":
+                pubs[urllib.parse.unquote(m["params"]["uri"]).rsplit("/", 1)[1]] = m["params"]["diagnostics"]
+        for f, ds in diags:
+            rel = f[3:]
+            want = sorted((json.dumps(rng_json(w2[rel], a, b), sort_keys=True), msg) for _, a, b, msg in ds)
+            got = sorted((json.dumps(g["range"], sort_keys=True), g["message"]) for g in pubs.get(rel, []))
+            if got != want:
+                ck.fail(["C09", "location", "cyclic-edit:" + core.sig_hash(w2)], "publishDiagnostics for %s after edits of %s, which is included back by a file it includes: "
+                        "the range the client holds does not denote the analysed span in the current text" % (f, doc), {"files": w2, "document": doc}, json.dumps(got)[:600], json.dumps(want)[:600])
+                break
+    ck.count("cyclic_edits", len(clines), {core.sig_hash(l) for l in clines}, sample={"line": clines[0][:300]})
     # the conversion layer model (TgModel/Lsp.lean; theorems K_denotes / server_locations_denote_all of Props/C09.lean): the model's
     # LSP answer for the ide-level answer must be what the reference mapper expects (which the server's JSON was compared with above)
     mlines, mmeta = [], []
